@@ -24,6 +24,7 @@ namespace Mxl.C04
     the simulation advanced; `clear_results` resets shift and errors; `_handle_simulation_results` has the
     modelled shape. -/
 theorem C04_source_facts :
+    Gen.unsupported = [] ∧
     Gen.simulateRefusal = .le ∧ Gen.timeCourseRefusal = .le ∧ Gen.timeCourseKeep = .ge ∧
     Gen.simulateChecksBeforeShift = true ∧ Gen.timeCourseChecksBeforeShift = true ∧
     Gen.simulateSkipfirst = true ∧ Gen.timeCourseSkipfirst = true ∧ Gen.steadySkipfirst = false ∧
